@@ -297,12 +297,16 @@ pub open spec fn send_fut_inv<T>(f: SendFuture<'_, T>) -> bool {
     &&& !f.sig.is_sync()
     // the value is still in the future until the operation is Done
     &&& (!(f.state is Done) && big::<T>() ==> f.data.mem_contents() is Init)
+    &&& (!(f.state is Done) && !big::<T>() ==> f.sig.owns_payload())
 }
 pub open spec fn recv_fut_inv<T>(f: ReceiveFuture<'_, T>) -> bool {
     &&& (f.state is Zero ==> f.sig.fresh())
     &&& !f.sig.is_sync()
-    // once the peer has filled the lent slot it is initialised (evidence for reading / dropping it)
-    &&& (f.state is Waiting && big::<T>() ==> (ptr_filled(f.sig.slot()) ==> f.data.mem_contents() is Init))
+    &&& (!big::<T>() ==> !f.sig.owns_payload())
+    // once the peer has filled the lent slot it is initialised and holds what the peer wrote
+    // (evidence for reading / dropping it)
+    &&& (f.state is Waiting && big::<T>() ==> (ptr_filled(f.sig.slot()) ==> f.data.mem_contents() is Init
+            && f.data.mem_contents().value() == ptr_fill_val(f.sig.slot())))
 }
 /// the states in which `ReceiveFuture::poll` starts a new receive: Zero, or Done for the stream (re-arm)
 pub open spec fn recv_starts<T>(f: ReceiveFuture<'_, T>) -> bool {
@@ -328,6 +332,8 @@ pub open spec fn send_poll_post<T>(o: SendFuture<'_, T>, n: SendFuture<'_, T>, f
         // Waiting: completion is decided from the signal only; at most an observing section
         &&& fx.cs.len() <= 1
         &&& (fx.cs.len() == 1 ==> same_state(fx.cs[0].pre, fx.cs[0].post))
+        // O-spurious: while the waiter is still listed (nobody has claimed it) a poll stays pending
+        &&& (fx.cs.len() == 1 && senders(fx.cs[0].pre).contains(o.sig.term()) ==> r is Pending)
         &&& no_effects(fx)
         &&& fx.local_reads == 0
         &&& match r {
@@ -351,6 +357,7 @@ pub open spec fn recv_poll_post<T>(o: ReceiveFuture<'_, T>, n: ReceiveFuture<'_,
     } else {
         &&& fx.cs.len() <= 1
         &&& (fx.cs.len() == 1 ==> same_state(fx.cs[0].pre, fx.cs[0].post))
+        &&& (fx.cs.len() == 1 && receivers(fx.cs[0].pre).contains(o.sig.term()) ==> r is Pending)
         &&& no_effects(fx)
         &&& fx.local_drops == 0
         &&& match r {
